@@ -28,7 +28,12 @@ import re
 from concurrent.futures import ThreadPoolExecutor
 from fractions import Fraction
 
-import numpy as np
+# qhull/LAPACK are called on tiny problems from many worker processes: BLAS
+# thread pools only spin (measured: 25x CPU time); must precede numpy
+for _v in ("OPENBLAS_NUM_THREADS", "OMP_NUM_THREADS", "MKL_NUM_THREADS"):
+    os.environ.setdefault(_v, "1")
+
+import numpy as np  # noqa: E402
 
 from . import common
 
@@ -978,7 +983,8 @@ def chk_proportional(sc, rng):
         vs = viscosities(sc.med, sc.cw, sc.fr, sc.x.size)
         if np.isfinite(vs).all() and sc.x.size:
             EA = np.atleast_1d(sc.f())
-            r = same(E0 / v * vs, EA, 1e-9)
+            _, dist, cond, _ = sc.ref()
+            r = close_outside_band(E0 / v * vs, EA, dist, cond)
             if r:
                 return ("event %d: per-event viscosity %r: emodulus %r, "
                         "expected %r (global viscosity %r gives %r)" % (
@@ -1287,9 +1293,9 @@ def oracle_cases(run):
         for chk in names:
             reps = (3 if th else 1)
             if chk == "reference":
-                reps = 6 if th else 2
+                reps = 8 if th else 3
             for _ in range(reps):
-                n = {"reference": 3000 if th else 1200, "batch": 40,
+                n = {"reference": 4000 if th else 1500, "batch": 40,
                      "dataset": 30}.get(chk, 150)
                 case, kinds = gen_scenario(
                     rng, L, n, nice=rng.random() < 0.5,
@@ -1299,7 +1305,7 @@ def oracle_cases(run):
                 case["rseed"] = rng.randrange(1 << 30)
                 out.append((case, kinds))
     # generated tables: many calls, few events
-    for k in range(400 if th else 60):
+    for k in range(500 if th else 120):
         L = gen_user_lut(rng, dyadic=rng.random() < 0.3, nmax=60)
         for chk in names:
             if chk == "isoelastics" or (
